@@ -1557,6 +1557,28 @@ def _alloc_kind(c):
     return None
 
 
+def _whole_def_before(fn, b, stmt):
+    """a statement before `stmt` (in source order) defines all of buffer b: `b[...] = e`, `b[:] = e`, numpy.copyto(b, e), b.fill(c), f(.., out=b)"""
+    for s2 in walk_no_nested(fn):
+        if not isinstance(s2, ast.stmt) or getattr(s2, 'lineno', 0) >= getattr(stmt, 'lineno', 0):
+            continue
+        if isinstance(s2, ast.Assign):
+            for t in s2.targets:
+                if isinstance(t, ast.Subscript) and norm(t.value) in (b, b + '.data'):
+                    sl = t.slice
+                    if (isinstance(sl, ast.Constant) and sl.value is Ellipsis) or (isinstance(sl, ast.Slice) and sl.lower is None and sl.upper is None and sl.step is None):
+                        return True
+        if isinstance(s2, ast.Expr) and isinstance(s2.value, ast.Call):
+            c = s2.value
+            if (dotted_name(c.func) or '') == 'numpy.copyto' and c.args and norm(c.args[0]) in (b, b + '.data', b + '[...]', b + '.data[...]'):
+                return True
+            if isinstance(c.func, ast.Attribute) and c.func.attr == 'fill' and norm(c.func.value) in (b, b + '.data'):
+                return True
+            if any(k.arg == 'out' and norm(k.value) in (b, b + '.data') for k in c.keywords):
+                return True
+    return False
+
+
 def _uninit_findings(fn):
     """[(allocation stmt, reason)] for buffers obtained from numpy.empty / empty_like in function node fn whose contents are only
     partly defined before the buffer is read or leaves the function.  Decided cases: a whole-array definition (`b[...] = e`,
@@ -1597,7 +1619,8 @@ def _uninit_findings(fn):
                 first = sl.elts[0] if isinstance(sl, ast.Tuple) and sl.elts else sl
                 if isinstance(s2, ast.AugAssign):
                     other = True        # an update reads the old contents
-                    out.append((st, 'is updated in place (`%s`) before it has been defined' % norm(s2)[:50]))
+                    if not _whole_def_before(fn, b, s2):
+                        out.append((st, 'is updated in place (`%s`) before it has been defined' % norm(s2)[:50]))
                     break
                 if (isinstance(first, ast.Constant) and first.value is Ellipsis) or (isinstance(first, ast.Slice) and first.lower is None and first.upper is None and first.step is None
                                                                                       and not (isinstance(sl, ast.Tuple) and any(not isinstance(e, ast.Slice) and not (isinstance(e, ast.Constant) and e.value is Ellipsis) for e in sl.elts[1:]))):
